@@ -504,6 +504,15 @@ eqv('e16_rename_selectors', 'cachelito-core/src/*', 'find_arc_eviction_key', 'pi
 eqv('e17_rename_remove_helper', 'cachelito-core/src/*', 'remove_from_maps', 'drop_key_everywhere', 'private helper renamed')
 eqv('e18_rename_invalidate_caches', 'cachelito-core/src/*', 'invalidate_caches', 'run_clear_callbacks', 'private registry routine renamed')
 eqv('e19_rename_is_already', 'cachelito-core/src/*', 'is_already_key_inserted', 'replace_existing_entry', 'private async helper renamed')
+eqv('e20_negated_overflow', G, 'if o.len() > limit {', 'if !(o.len() <= limit) {', 'overflow test written through a negation')
+eqv('e21_negated_async_expiry', A, '                age >= ttl\n', '                !(age < ttl)\n', 'expiry test written through a negation')
+eqv('e22_negated_oversize', G, 'if new_value_size > max_mem {', 'if !(new_value_size <= max_mem) {', 'oversize test written through a negation')
+mut('m36_negated_overflow_off_by_one', ['C04'], G, 'if o.len() > limit {', 'if !(o.len() < limit) {', 'off-by-one hidden behind a negation')
+mut('m37_negated_fit_off_by_one', ['C05'], G, """                if current_mem <= max_mem {
+                    break;
+                }""", """                if !(current_mem >= max_mem) {
+                    break;
+                }""", 'fit test < instead of <= hidden behind a negation')
 
 
 def apply(m):
